@@ -151,6 +151,8 @@ impl Prop for C17 {
         // three and four sections with a repeated name or key at every pair of positions
         for n in [3usize, 4] { for i in 0..n { for j in i + 1..n { for what in ["name", "pk"] { v.push(case(&[("kind", "dup".into()), ("n", n.to_string()), ("i", i.to_string()), ("j", j.to_string()), ("what", what.into())])); } } } }
         for _ in 0..(if th { 300 } else { 40 }) { v.push(case(&[("kind", "lookup".into()), ("seed", rng.next().to_string())])); }
+        // the three fields of a section in every order (all accepted, same entry) and every field given twice (rejected)
+        for _ in 0..(if th { 12 } else { 3 }) { v.push(case(&[("kind", "field-order".into()), ("seed", rng.next().to_string())])); }
         for l in 0..=60usize { for var in 0..(if th { 6 } else { 2 }) { v.push(case(&[("kind", "pklen".into()), ("len", l.to_string()), ("var", var.to_string()), ("seed", rng.next().to_string())])); } }
         for (i, _) in NAMES.iter().enumerate() { v.push(case(&[("kind", "name".into()), ("ni", i.to_string())])); }
         for extra in ["x128", "x129", "e64", "e65", "tabend", "nl", "crlf", "sp", "eq", "u2028"] { v.push(case(&[("kind", "name".into()), ("ni", extra.into())])); }
@@ -180,6 +182,10 @@ impl Prop for C17 {
                 o.nontrivial = Some(format!("{:x}", { let mut h = 0xcbf29ce484222325u64; for b in text.bytes() { h = (h ^ b as u64).wrapping_mul(0x100000001b3); } h }));
                 if r == "crash" { o.oracle_fail = Some(("no-panic".into(), "Keyring::new panicked".into())); return o; }
                 if r != mr { o.disagreement = Some(format!("Keyring::new and the model differ on {:?}", text)); }
+                // every 4th text also goes through the Lean definitions GENERATED from keyring.rs (tools/rs2lean_keyring.py): this ties the translator to the code
+                if o.disagreement.is_none() && { let mut h = 0u32; for b in text.bytes() { h = h.wrapping_mul(31).wrapping_add(b as u32); } h % 4 == 0 } {
+                    let sr = m.ask(&format!("parse_keyring_src {}", hexd(text.as_bytes()))); o.validated += 1; o.tags.push("translated keyring.rs run".into());
+                    if sr != r { o.disagreement = Some(format!("the Lean definitions translated from keyring.rs give {:?} but Keyring::new gives {:?} on {:?}", sr.chars().take(60).collect::<String>(), r.chars().take(60).collect::<String>(), text)); } }
                 if accepted {
                     // oracle: accepted => names 1..128 bytes, distinct; keys well-formed, distinct; lookups have one answer
                     let entries: Vec<Vec<&str>> = r[3..].split(';').filter(|x| !x.is_empty()).map(|e| e.split('|').collect()).collect();
@@ -211,6 +217,34 @@ impl Prop for C17 {
                 o.nontrivial = Some(format!("dup/{}/{}/{}/{}", n, i, j, what)); o.tags.push(format!("dup {} -> {}", what, if r.starts_with("ok") { "accepted" } else { "rejected" }));
                 if r.starts_with("ok") { o.oracle_fail = Some((format!("no-{}-occurs-twice", what), format!("a keyring of {} sections in which sections {} and {} have the same {} is accepted", n, i + 1, j + 1, if what == "pk" { "public key" } else { "name" }))); }
                 else if r != mr { o.disagreement = Some(format!("impl {} model {}", r, mr)); }
+            }
+            "field-order" => {
+                let mut rng = Rng::new(get(c, "seed").parse().unwrap_or(0));
+                let fx = crate::cli::fixtures();
+                let other_pk = enc_pk(&rng.bytes(32));
+                let fields = [format!("Name = {}", fx.alice.name), format!("PublicKey = {}", fx.alice.enc_pk), format!("PrivateKey = {}", fx.alice.enc_sk)];
+                o.nontrivial = Some(format!("field-order/{}", get(c, "seed"))); o.tags.push("field order / repeated field".into());
+                let perms: [[usize; 3]; 6] = [[0, 1, 2], [0, 2, 1], [1, 0, 2], [1, 2, 0], [2, 0, 1], [2, 1, 0]];
+                let mut first: Option<String> = None;
+                for pm in perms.iter() {
+                    let text = format!("[Key]\n{}\n{}\n{}\n\n[Key]\nName = other\nPublicKey = {}\n", fields[pm[0]], fields[pm[1]], fields[pm[2]], other_pk);
+                    let r = rust_parse(&text); let mr = m.ask(&format!("parse_keyring {}", hexd(text.as_bytes()))); o.validated += 1;
+                    if !r.starts_with("ok") { o.impl_obs = r.clone(); o.model_obs = mr; o.oracle_fail = Some(("fields-in-any-order".into(), format!("a section whose fields come in the order {:?} is rejected ({}); Name / PublicKey / PrivateKey may come in any order", pm.iter().map(|&i| ["Name", "PublicKey", "PrivateKey"][i]).collect::<Vec<_>>(), r))); return o; }
+                    if let Some(f) = &first { if *f != r { o.oracle_fail = Some(("fields-in-any-order".into(), "the same section with its fields in another order parses to a different entry".into())); return o; } } else { first = Some(r.clone()); }
+                    if r != mr && o.disagreement.is_none() { o.disagreement = Some(format!("impl {} model {}", r, mr)); }
+                }
+                // a field given twice in one section (same value, other value; adjacent, separated) is an error
+                for dup in 0..3usize { for other_value in [false, true] { for sep in [false, true] {
+                    let second = if other_value { match dup { 0 => "Name = somebody else".to_string(), 1 => format!("PublicKey = {}", other_pk), _ => format!("PrivateKey = {}", fx.bob.enc_sk) } } else { fields[dup].clone() };
+                    let mut lines: Vec<String> = vec!["[Key]".into()];
+                    for (i, f) in fields.iter().enumerate() { lines.push(f.clone()); if i == dup && !sep { lines.push(second.clone()); } }
+                    if sep { lines.push(second.clone()); }
+                    let text = lines.join("\n") + "\n";
+                    let r = rust_parse(&text); let mr = m.ask(&format!("parse_keyring {}", hexd(text.as_bytes()))); o.validated += 1;
+                    if r.starts_with("ok") { o.impl_obs = r.clone(); o.model_obs = mr; o.oracle_fail = Some(("repeated-field-rejected".into(), format!("a section in which {} is given twice ({}, {}) is accepted", ["Name", "PublicKey", "PrivateKey"][dup], if other_value { "two different values" } else { "the same value twice" }, if sep { "the repetition after the other fields" } else { "on adjacent lines" }))); return o; }
+                    if r != mr && o.disagreement.is_none() { o.disagreement = Some(format!("impl {} model {}", r, mr)); }
+                } } }
+                o.impl_obs = "6 field orders accepted to the same entry; 12 repeated-field sections rejected".into(); o.model_obs = "same".into();
             }
             "lookup" => {
                 // lookups answer only on exact equality: probe an accepted keyring with near misses of its names and keys
